@@ -181,6 +181,11 @@ def gen_ops(m, pal, tier):
             ops.append(["rplus", o])
         if 2 * n + on <= MAX_N:
             ops.append(["concat3", o])
+    if n >= 2:
+        # operand with MORE atoms than this list whose bonds reach atoms this list does not have:
+        # none of them is a bond of this list, only (0, 1) may be removed
+        big = [[0, n + j, pal[j % 2]] for j in range(n)] + [[1, 2 * n, pal[0]], [0, 1, pal[1]]]
+        ops.append(["remove_bonds", "o_big", 2 * n + 1, big])
     for k in (0, 1, 2):
         if n + k <= MAX_N:
             ops.append(["offset", k])
